@@ -700,3 +700,8 @@ Proof.
   destruct (a_step before rc r a) as [[r' x] ns]. destruct (spec_step (fl_of rc r) sp a) as [[sp' x'] ns'].
   intros [Q1 [Q2 Q3]]. simpl. apply IHops; auto.
 Qed.
+
+(* a concrete history used as non-vacuity example in Properties_C17.v *)
+Definition c17_example_ops : list op :=
+  [NotifyAdd None 0 17 7; Put [97;98] 1; Put [97] 2; NotifyAdd (Some [97]) 1 3 0; Put [97] 3; Foreach 1; Rm [97;98];
+   Rm [97;98]; Get [97]; Count; Destroy]%N.
